@@ -180,7 +180,9 @@ def events_cases(tier, seed):
         plan, con, buf = (common.thin(plan, 6), common.thin(con, 3),
                           common.thin(buf, 3))
         ids = common.thin(ids, 2)
-    out = plan + con + buf + bat + park + off + ids + dense
+    zd = common.add_algs(list(common.zero_demand_scope(lvl)), lambda c: [{"kind": "queue"}, {"kind": "batch", "p": 1, "min": 1}],
+                         feasible_only=False)
+    out = plan + con + buf + bat + park + off + ids + dense + zd
     return common.rotate([(sc + "/events-mode", c) for sc, c in out]
                          + directed, seed), len(directed)
 
